@@ -3,6 +3,7 @@
    and its frame (everything else, in the same order).  All statements hold for every structure, hence after
    any interleaving of operations. *)
 From Coq Require Import List Ascii ZArith Bool Arith Lia.
+From Coq Require String.
 From PV Require Import Base.Sx Base.Text Spec.Hier Model.Edit.
 Import ListNotations.
 
@@ -244,14 +245,28 @@ Definition valid_atom (a : atom) : bool :=
    valid_text (a_id a) && valid_text (a_name a))%bool.
 Theorem C10_atom_setter_rejects : forall a f v, snd (upd_atom a f v) = false -> fst (upd_atom a f v) = a.
 Proof.
-  intros a f v. unfold upd_atom. destruct (afield_of f) as [fd|]; [|reflexivity].
+  intros a f v. unfold upd_atom.
+  destruct (String.eqb f f_pos).
+  { unfold upd_atom_pos. destruct v as [| | |[|vx [|vy [|vz [|]]]]]; simpl; try reflexivity.
+    destruct (finite (fval_of_sx vx) && finite (fval_of_sx vy) && finite (fval_of_sx vz))%bool; simpl; congruence. }
+  destruct (String.eqb f f_atf); [simpl; discriminate|].
+  destruct (afield_of f) as [fd|]; [|reflexivity].
   destruct fd; simpl; try discriminate;
   repeat match goal with |- context [if ?b then _ else _] => destruct b end; simpl; congruence.
 Qed.
 
 Theorem C10_atom_setter_keeps_valid : forall a f v, valid_atom a = true -> valid_atom (fst (upd_atom a f v)) = true.
 Proof.
-  intros a f v Hv. unfold upd_atom. destruct (afield_of f) as [fd|]; [|exact Hv].
+  intros a f v Hv. unfold upd_atom.
+  destruct (String.eqb f f_pos).
+  { unfold upd_atom_pos. destruct v as [| | |[|vx [|vy [|vz [|]]]]]; simpl; try exact Hv.
+    destruct (finite (fval_of_sx vx) && finite (fval_of_sx vy) && finite (fval_of_sx vz))%bool eqn:E; simpl; [|exact Hv].
+    unfold valid_atom in *. simpl.
+    repeat match type of Hv with (_ && _)%bool = true => let H := fresh "H" in apply andb_prop in Hv as [Hv H] end.
+    repeat match type of E with (_ && _)%bool = true => let H := fresh "H" in apply andb_prop in E as [E H] end.
+    repeat (apply andb_true_intro; split); auto. }
+  destruct (String.eqb f f_atf); [exact Hv|].
+  destruct (afield_of f) as [fd|]; [|exact Hv].
   unfold valid_atom in *.
   repeat match type of Hv with (_ && _)%bool = true => let H := fresh "H" in apply andb_prop in Hv as [Hv H] end.
   destruct fd; simpl;
